@@ -899,9 +899,9 @@ def _(v):
     frame(v, parts, old, comps, N)
 
 
-P.not_decided.append("reb_simulation_move_to_com (tools.c): not attempted in this pack -- the centre of mass is accumulated "
-                     "by reb_particle_com_of_pair with a sign-dependent renormalisation in every step and the function also "
-                     "shifts first/second-order variational particles; it is planned together with C20/C04")
+# reb_simulation_move_to_com / reb_simulation_com / reb_particle_com_of_pair: body contracts of the C20 frames pack, re-registered
+# for this property by contracts/C12_shared.py (tasks frame_change.frames.*); the shifts of the variational particles by the
+# derivatives of the centre of mass belong to C16/C20 and are not part of C12
 P.not_decided.append("rounding: all statements are over the reals; 'returns the original positions and velocities to "
                      "rounding error' is proved as exact equality in real arithmetic, no floating-point error bound")
 P.not_decided.append("unsigned wrap-around is not modelled by the engine (C integers are mathematical integers); for the two "
